@@ -88,7 +88,7 @@ def finish_slots(c):
         loc = spec_loc(sp)
         if loc is None or "/t" in sp:
             continue
-        if re.search(r"/S", sp) and word_token(c, loc) not in ("@BAD", "@BRK"):
+        if re.search(r"/S", sp) and word_token(c, loc) not in ("@BAD", "@BRK", "@EDGE"):
             a = ["obj", a]
         slots["%s:%d" % loc] = a[:2] if a[0] == "int" else a
     c["slots"] = slots
@@ -460,7 +460,8 @@ class Gen:
             self._c["actual"].append(["null"])
             self._c["tags"].append("str=NULL")
         elif k < 0.16:
-            tok = r.choice(["@BAD", "@BRK"])      # a PROT_NONE page / the gap behind the heap (repaired: 9eb50dd)
+            # inside a PROT_NONE page / the gap behind the heap (repaired: 9eb50dd) / exactly the end of a readable mapping
+            tok = r.choice(["@BAD", "@BRK", "@EDGE"])
             self.put(where, tok)
             self._c["actual"].append(["bad", tok])
             self._c["tags"].append("str=unreadable")
@@ -608,7 +609,7 @@ class Gen:
                 c["ret"][0] = 0
                 c["ractual"].append(["null"])
             elif q < 0.2:
-                c["ret"][0] = r.choice(["@BAD", "@BRK"])
+                c["ret"][0] = r.choice(["@BAD", "@BRK", "@EDGE"])
                 c["ractual"].append(["bad", c["ret"][0]])
             else:
                 s = self.string()
@@ -916,14 +917,14 @@ class Impl:
         for _ in range(4):
             next(it)
         a = next(it).split()
-        f0, bad, brk = int(a[1]), int(a[2]), int(a[3])
+        f0, bad, brk, edge = int(a[1]), int(a[2]), int(a[3]), int(a[4])
         for c in cases:
             nobj = len(c["strings"]) + len(c["objs"])
             saddr = {}
             for i in range(nobj):
                 next(it)
                 saddr[i] = int(next(it).split()[1])
-            c["env"] = {"f0": f0, "bad": bad, "brk": brk, "saddr": saddr}
+            c["env"] = {"f0": f0, "bad": bad, "brk": brk, "edge": edge, "saddr": saddr}
             sp = next(it)[6:].split(" | ")
             c["tflags"] = int(sp[0].split()[0])
             c["mspecs"] = []
@@ -1130,6 +1131,8 @@ def resolve(c, t):
             return c["env"]["bad"]
         if t == "@BRK":
             return c["env"]["brk"]
+        if t == "@EDGE":
+            return c["env"]["edge"]
         if t.startswith("@S"):
             return c["env"]["saddr"][int(t[2:])]
         if t.startswith("@F"):
